@@ -34,6 +34,7 @@ package bcl
 //@   assert [C05] child_block_key_is_matched_by_its_type_part: at unsnakeMatcher#1: $snake == scutbefore(old(name), ".")
 //@   assert [C15,C16] every_stored_key_is_recorded_against_its_field_so_a_second_key_for_it_is_refused: result == nil ==> has(filled, f.Name)
 //@   assert [C15] stores_the_block_value_unchanged: at Set#1: $x == rvalof(x)
+//@   assert [C15,C05] a_nested_block_is_bound_with_its_own_type_name_and_fields: at copyBlock#1: VBlockOf($block) == x
 //@   assert [C15] stores_only_into_exported_fields: at Set#1: f.PkgPath == ""
 //
 // the matching rule: equal ignoring case after removing the underscores of the BCL key
